@@ -85,7 +85,7 @@ def r1(ctx):
         ctx.check("DrawdownGenerator::update:emit", len(tn) == 1 and b.dominates(tn[0][2], gb),
                   "and after the current time was stored (it is the recovery time)", key="after-time")
         rets = {}
-        for g, t, bi in b.local_cases(0):
+        for g, t, bi in b.expanded_cases(0):
             rets[str(_atoms(g))] = render(t)
         ctx.check("DrawdownGenerator::update:emit", rets.get(str(np_g)) == render(gens[0][2]),
                   "and that record is what update returns", got=rets, key="returned")
